@@ -17,17 +17,24 @@ EXTENDS ExaWire
 
 Dom == [ ext |-> BOOLEAN, addpath |-> BOOLEAN,
          a4 |-> {"0", "1", "2", "fill"}, w4 |-> {"0", "1", "fill"},
-         a6 |-> {"0", "1", "3"}, nh6 |-> {1, 2}, w6 |-> {"0", "2"},
+         a6 |-> {"0", "1", "3", "fill"}, nh6 |-> {1, 2}, w6 |-> {"0", "2", "fill"},
          v4over6 |-> BOOLEAN,     \* the IPv4 routes have an IPv6 next hop (RFC 8950, extended next hop negotiated)
-         room |-> {"large", "k0", "k1", "k3", "k4", "k5", "k6", "k8", "k9", "k12", "neg", "ext255", "ext256"} ]
+         \* "pN": N more bytes of attributes, so that the point where a message is full moves through every alignment of the
+         \* 7-byte (IPv6 /48) and 4-byte (IPv4 /24) NLRI of the sets that need several messages ("fill")
+         room |-> {"large", "k0", "k1", "k3", "k4", "k5", "k6", "k8", "k9", "k12", "k27", "k29", "k31", "k35", "neg", "ext255", "ext256", "p1", "p2", "p3", "p4", "p5", "p6"} ]
 Base == [ext |-> FALSE, addpath |-> FALSE, v4over6 |-> FALSE, a4 |-> "2", w4 |-> "0", a6 |-> "0", nh6 |-> 1, w6 |-> "0", room |-> "large"]
 Bases == {Base, [Base EXCEPT !.v4over6 = TRUE, !.a6 = "1"], [Base EXCEPT !.a4 = "fill", !.w4 = "fill", !.a6 = "3", !.nh6 = 2, !.w6 = "2"],
-          [Base EXCEPT !.a4 = "1", !.room = "k4"], [Base EXCEPT !.a4 = "0", !.a6 = "1", !.room = "k12"]}
+          [Base EXCEPT !.a4 = "1", !.room = "k4"], [Base EXCEPT !.a4 = "0", !.a6 = "1", !.room = "k12"],
+          [Base EXCEPT !.a4 = "0", !.a6 = "fill", !.room = "p3"], [Base EXCEPT !.a4 = "0", !.w6 = "fill", !.room = "p3"],
+          [Base EXCEPT !.a4 = "fill", !.room = "p1"],
+          \* room for an MP_REACH_NLRI carrying the short IPv6 prefix (/16) but not the /48 which follows it
+          [Base EXCEPT !.a4 = "0", !.a6 = "3", !.room = "k29"]}
 Fields == DOMAIN Base
+Plenty == {"large", "ext255", "ext256", "p1", "p2", "p3", "p4", "p5", "p6"}
 WellFormed(c) == (c.v4over6 => c.a4 # "0" /\ c.room \in {"large", "ext255", "ext256"})
               /\ (c.a4 # "0" \/ c.w4 # "0" \/ c.a6 # "0" \/ c.w6 # "0")
-              /\ (c.room \notin {"large", "ext255", "ext256"} => (c.a4 \in {"0", "1", "2"} /\ c.w4 \in {"0", "1"}))
-              /\ (c.ext => c.a4 # "fill" /\ c.w4 # "fill")           \* 65535-byte messages are filled with one large attribute instead
+              /\ (c.room \notin Plenty => (c.a4 \in {"0", "1", "2"} /\ c.w4 \in {"0", "1"} /\ c.a6 # "fill" /\ c.w6 # "fill"))
+              /\ (c.ext => c.a4 # "fill" /\ c.w4 # "fill" /\ c.a6 # "fill" /\ c.w6 # "fill")           \* 65535-byte messages are filled with one large attribute instead
 
 \* ---- judging -------------------------------------------------------------------------------
 Chk(name, ok) == IF ok THEN {} ELSE {name}
@@ -82,7 +89,7 @@ Viol(j) ==
                  attrLen == Len(DecUpdateBody(Drop(j.ref, 19)).attrs)
                  room4 == maxLen - 23 - attrLen
                  noRoom == j.case.room = "neg"
-                 mustA == IF noRoom THEN {} ELSE {a \in wantA : IF a[1][1] = "v4u" THEN PfxSize(a[1], ap) <= room4 ELSE PfxSize(a[1], ap) + 48 <= room4}
+                 mustA == IF noRoom THEN {} ELSE {a \in wantA : IF a[1][1] = "v4u" THEN PfxSize(a[1], ap) <= room4 ELSE PfxSize(a[1], ap) + 24 <= room4}
                  mustW == IF noRoom THEN {} ELSE {w \in wantW : IF w[1] = "v4u" THEN PfxSize(w, ap) <= maxLen - 23 ELSE PfxSize(w, ap) + 16 <= maxLen - 23}
              IN Chk("C09-announced-a-route-or-next-hop-that-was-not-requested", gotA \subseteq wantA)
                 \cup Chk("C09-announce-produced-although-the-attributes-leave-no-room", noRoom => gotA = {})
